@@ -86,7 +86,10 @@ func (s *Sandbox) ClearLocks() {
 func (s *Sandbox) Run(args ...string) Result { return s.RunEnv(nil, args...) }
 
 // RunEnv is Run with extra environment entries.
-func (s *Sandbox) RunEnv(env []string, args ...string) Result {
+func (s *Sandbox) RunEnv(env []string, args ...string) Result { return s.RunIn("", env, args...) }
+
+// RunIn is RunEnv with the given text piped to the command's standard input.
+func (s *Sandbox) RunIn(stdin string, env []string, args ...string) Result {
 	ctx, cancel := context.WithTimeout(context.Background(), 120*time.Second)
 	defer cancel()
 	cmd := exec.CommandContext(ctx, Bin(), args...)
@@ -103,6 +106,9 @@ func (s *Sandbox) RunEnv(env []string, args ...string) Result {
 	cmd.Env = append(cmd.Env, env...)
 	var so, se bytes.Buffer
 	cmd.Stdout, cmd.Stderr = &so, &se
+	if stdin != "" {
+		cmd.Stdin = strings.NewReader(stdin)
+	}
 	cmd.SysProcAttr = &syscall.SysProcAttr{Setpgid: true}
 	err := cmd.Run()
 	r := Result{Args: args, Stdout: so.String(), Stderr: se.String()}
